@@ -419,8 +419,10 @@ def sx_isinstance(x, t):
         return False
     if t is sx_strtype:
         return _real_isinstance(x, _real_str)
-    if type(t) is tuple and sx_strtype in t:
-        t = tuple(_real_str if u is sx_strtype else u for u in t)
+    if t is OrderedSet:
+        t = set
+    if type(t) is tuple and (sx_strtype in t or OrderedSet in t):
+        t = tuple(_real_str if u is sx_strtype else (set if u is OrderedSet else u) for u in t)
     return _real_isinstance(x, t)
 
 
@@ -498,6 +500,52 @@ def sx_sorted(it, *a, **k):
     if _any_proxy(it):
         raise ProxyLeak("sorted() over proxies")
     return sorted(it, *a, **k)
+
+
+# ---------------------------------------------------------------- adversarial set iteration order (PYTHONHASHSEED as environment)
+ORDER_SETS = False            # set by a check BEFORE the first instrumented import: shadow `set` / set displays in instrumented modules
+SET_ORDER = {"mode": None}    # None = the interpreter's own order; "sorted" / "reversed" / "rotated" = an order a hash seed could produce
+
+
+def _set_key(x):
+    return (type(x).__name__, x if _real_isinstance(x, (_real_str, _real_int, float)) else 0)
+
+
+class OrderedSet(set):
+    """a set whose iteration order is chosen by the harness: any order is one some hash seed may produce for str elements"""
+
+    def __iter__(self):
+        items = list(set.__iter__(self))
+        mode = SET_ORDER["mode"]
+        if mode is None or len(items) < 2:
+            return iter(items)
+        try:
+            items.sort(key=_set_key)
+        except TypeError:
+            return iter(items)
+        if mode == "reversed":
+            items.reverse()
+        elif mode == "rotated":
+            items = items[1:] + items[:1]
+        return iter(items)
+
+    def _wrap(name):
+        def m(self, *a):
+            r = getattr(set, name)(self, *a)
+            return OrderedSet(r) if type(r) is set else r
+        m.__name__ = name
+        return m
+
+    for _n in ("union", "intersection", "difference", "symmetric_difference", "copy", "__or__", "__and__", "__sub__", "__xor__",
+               "__ror__", "__rand__", "__rsub__", "__rxor__"):
+        locals()[_n] = _wrap(_n)
+    del _n, _wrap
+
+    def pop(self):
+        for x in self:
+            self.discard(x)
+            return x
+        raise KeyError("pop from an empty set")
 
 
 DISPATCH = {
@@ -594,6 +642,18 @@ class Instr(ast.NodeTransformer):
                 out.append(ast.copy_location(ast.Delete([t]), node))
         return out
 
+    def visit_Set(self, node):
+        self.generic_visit(node)
+        if not ORDER_SETS:
+            return node
+        return ast.copy_location(ast.Call(_name("set"), [ast.List(node.elts, ast.Load())], []), node)
+
+    def visit_SetComp(self, node):
+        self.generic_visit(node)
+        if not ORDER_SETS:
+            return node
+        return ast.copy_location(ast.Call(_name("set"), [ast.GeneratorExp(node.elt, node.generators)], []), node)
+
     def visit_JoinedStr(self, node):
         self.generic_visit(node)
         parts = []
@@ -640,6 +700,8 @@ class _Loader(importlib.abc.Loader):
         with open(self.path, "rb") as f:
             src = f.read()
         module.__dict__.update(DISPATCH)
+        if ORDER_SETS:
+            module.__dict__["set"] = OrderedSet
         module.__dict__["__sx_instrumented__"] = True
         exec(instrument_source(src, self.path), module.__dict__)
 
